@@ -17,6 +17,11 @@
 #ifndef W_TASKS
 #define W_TASKS 5
 #endif
+// W_P8: a payload type larger than its alignment (the payload storage of transitions and tasks is sized and aligned by the type)
+#ifdef W_P8
+struct P8 { int a; int b; };
+#define W_PAYLOAD P8
+#endif
 #ifndef W_PAYLOAD
 #define W_PAYLOAD int
 #endif
